@@ -48,11 +48,11 @@ def lpRows {n : Nat} (b : Bounds α n) (ds v2next : α) (p : Sample α n) : List
   ++ (List.finRange n).map (fun j => (-(p.acc j), -(p.vel j), -(b.amin j)))
 
 /-- reverse pass with the LP results as a parameter: `lpres i = (y_opt, a_opt, status)` is what
-    `lp2d::solve(-1, 0, rows_i)` returned at grid point `i = 0..N−1`; returns `v2max(0..N)`.
-    A status other than Optimal/DualInfeasible leaves the entry unwritten (`unset`). -/
-def backward (lpres : List (α × α × Nat)) (unset v2end : α) : List α :=
+    `lp2d::solve(-1, 0, rows_i)` returned at grid point `i = 0..N−1`; returns `v2max(0..N)`:
+    `max(0, y_opt)` when Optimal (`(0,0)` is always feasible), `inf` when DualInfeasible, `0` otherwise -/
+def backward (lpres : List (α × α × Nat)) (v2end : α) : List α :=
   lpres.foldr (fun r acc =>
-    (if r.2.2 = 0 then r.1 else if r.2.2 = 2 then inf else unset) :: acc) [v2end]
+    (if r.2.2 = 0 then Scalar.max (nat 0) r.1 else if r.2.2 = 2 then inf else nat 0) :: acc) [v2end]
 
 /-- the rows handed to the LP at every grid point, given `v2max` -/
 def lpRowsAll {n : Nat} (b : Bounds α n) (ds : α) (v2max : List α) (samples : List (Sample α n)) :
@@ -93,7 +93,8 @@ def fwdStep {n : Nat} (b : Bounds α n) (ds si v2next v2m : α) (p : Sample α n
   if inf ≤ ai then (v2m, none)   -- `ai != inf` fails
   else
     let dt := segDt ds vi vi2 ai
-    (Scalar.max eps (vi2 + nat 2 * ai * ds), some (mkSeg si vi ai dt))
+    -- a segment is emitted only `if (dt > 0)`: a clamped speed that is decelerated further takes no time
+    (Scalar.max eps (vi2 + nat 2 * ai * ds), if nat 0 < dt then some (mkSeg si vi ai dt) else none)
 
 /-- forward pass over the grid points `i = 0..N−1` given `v2max(0..N)` -/
 def forward {n : Nat} (b : Bounds α n) (s0 ds startVel : α) (v2max : List α)
